@@ -1913,7 +1913,9 @@ class Table(Vector):
 					if n <= 1:
 						return None
 					mean_val = sum(clean) / n
-					variance = sum((v - mean_val) ** 2 for v in clean) / (n - 1)
+					# squared with a product, as Vector.stdev does: x ** 2 and x * x differ in the last bit for some floats,
+					# and the whole-column reduction must agree with aggregating the column as one group
+					variance = sum((v - mean_val) * (v - mean_val) for v in clean) / (n - 1)
 					return variance ** 0.5
 				
 				aggregate_col(col, stdev_func, "stdev")
@@ -2167,7 +2169,8 @@ class Table(Vector):
 					if n <= 1:
 						return None
 					mean_val = sum(clean) / n
-					return (sum((v - mean_val)**2 for v in clean) / (n - 1)) ** 0.5
+					# squared with a product, as Vector.stdev and aggregate do (x ** 2 and x * x differ in the last bit)
+					return (sum((v - mean_val) * (v - mean_val) for v in clean) / (n - 1)) ** 0.5
 				
 				gm = compute_group_values(col, fn)
 				result_cols.append(
